@@ -3,6 +3,8 @@ import HmfVerif.Gen.ExprMdef
 import HmfVerif.Spec.Mdef
 import HmfVerif.Spec.Wiring
 import HmfVerif.Gen.ExprFlow
+import HmfVerif.Gen.Guards
+import HmfVerif.Spec.Guards
 /-!
 # C16 — mass definitions: exact overdensity algebra, mutual inverses
 (conversion between definitions rests on `brentq` and a halo profile: numerical checks only)
@@ -108,5 +110,8 @@ theorem SOMean_roundtrip (opq : String → ℝ → ℝ) (ρ : String → ℝ)
 
 /-- an explicitly selected mass definition is built from exactly the user's `mdef_params` -/
 theorem mdef_component_wiring : Gen.Flow.wiring.lookup "MassFunction.mdef" = some Spec.Wiring.mdef := by decide
+
+/-- mass definitions contain no numeric special cases -/
+theorem guards_mdef : Gen.Guards.mdef = Spec.Guards.mdef := by decide
 
 end Hmf.C16
